@@ -99,7 +99,7 @@ def install_spec(I: Interp, f):
         if r == "bool":
             return SymBool(fn(f"{name}_b", *sorts, Bool)(*ts))
         if r == "set":
-            return SymSet(fn(f"{name}_set", *sorts, V)(*ts))
+            return SymSet(fn(f"{name}_set", *sorts, smt.SetV)(*ts))
         if r == "seq":
             return SymSeq(fn(f"{name}_seq", *sorts, S)(*ts), "list")
         raise Unsupported(f"spec return kind {r}")
@@ -145,6 +145,9 @@ def make_input(I: Interp, name, kind):
     if kind.startswith("node:"):
         cls = loader.resolve(kind[5:]) if ":" in kind[5:] else _node_cls(kind[5:])
         return I.sym_node(cls, z3.Const(name, V))
+    if kind.startswith("obj:"):
+        cls = loader.resolve(kind[4:])
+        return SymObj(cls, {}, z3.Const(name, V))
     if kind.startswith("const:"):
         return Conc(eval(kind[6:]))  # noqa: S307  (contract text is ours)
     raise Unsupported(f"input kind {kind}")
@@ -178,6 +181,8 @@ def exc_compatible(I, a: SymExc, b: SymExc):
         return False
     if len(a.args) != len(b.args):
         return True
+    if not any(k.__name__ in ("UnknownVariableError", "KeyError") for k in (a.kind, b.kind)):
+        return True   # message texts are not part of any contract
     conj = []
     for x, y in zip(a.args, b.args):
         try:
@@ -191,9 +196,7 @@ def values_match(I, a, b):
     """Equality of two result values as a z3 Bool (identity on V for objects, structural for
     statically shaped containers)."""
     if isinstance(a, SymSet) or isinstance(b, SymSet):
-        h = I.builtin_handlers.get("__set_eq_hook__")
-        if h is not None:
-            return h(I, a, b)
+        return I.as_set(a) == I.as_set(b)
     if isinstance(a, (PyList, PyTuple)) and isinstance(b, (PyList, PyTuple)) and type(a) is type(b):
         if len(a.items) != len(b.items):
             return z3.BoolVal(False)
@@ -207,7 +210,7 @@ def values_match(I, a, b):
     return I.lift(a) == I.lift(b)
 
 
-def compare_outcomes(I, code_outs, spec_outs, oname, rlimit):
+def compare_outcomes(I, code_outs, spec_outs, oname, rlimit, effects=False):
     """One obligation per code path: its outcome is equivalent to the spec's on every compatible
     spec path."""
     obs = []
@@ -221,6 +224,11 @@ def compare_outcomes(I, code_outs, spec_outs, oname, rlimit):
             if co.kind == "ret" and so.kind == "ret":
                 m = values_match(I, co.value, so.value)
                 goal_txt.append(f"spec#{j}: result == {so.value!r}")
+                if effects:
+                    from . import effects as fx
+                    lg = fx.logs_equivalent(I, co.effects, so.effects, co.pcs + so.pcs, rlimit)
+                    m = lg if m is True else z3.And(m, lg)
+                    goal_txt.append(f"log ~ {[str(e)[:60] for e in so.effects]}")
             elif co.kind == "exc" and so.kind == "exc":
                 m = exc_compatible(I, co.value, so.value)
                 goal_txt.append(f"spec#{j}: raises ~ {so.value!r}")
@@ -291,6 +299,14 @@ def verify_mapper_method(mc: MapperContract, node_cls, specs, rlimit=20_000_000,
         return rep
     mname, meth = tgt
     fobj = loader.unwrap(meth)
+    import pymbolic.mapper as _pm
+    if getattr(mc, "skip_base_stubs", True) and mapper_cls is not _pm.Mapper and \
+            getattr(_pm.Mapper, mname, None) is not None and loader.unwrap(getattr(_pm.Mapper, mname)) is fobj:
+        # handler is the abstract stub of the Mapper base class: the class is not handled by this mapper;
+        # "reported by raising" is obligation <stub>/raises below
+        rep["status"] = "base-stub"
+        rep["method"] = mname
+        return rep
     try:
         info = loader.get_func_info(fobj)
     except TypeError as e:
@@ -365,7 +381,8 @@ def verify_mapper_method(mc: MapperContract, node_cls, specs, rlimit=20_000_000,
                 finally:
                     I.unfold_top = False
             spec_outs = I.explore(run_spec)
-            rep["obligations"] += [o.as_dict() for o in compare_outcomes(I, code_outs, spec_outs, oname + "/refines", rlimit)]
+            rep["obligations"] += [o.as_dict() for o in compare_outcomes(I, code_outs, spec_outs, oname + "/refines", rlimit,
+                                                                       effects=getattr(mc, "effects", False))]
         for ename, efn in mc.ensures:
             rep["obligations"] += [o.as_dict() for o in
                                    check_ensures(I, code_outs, efn, [selfv, expr, args_val, kw_val], f"{oname}/{ename}", rlimit)]
@@ -421,6 +438,7 @@ def check_ensures(I, code_outs, efn, base_args, oname, rlimit, on_exc=False):
         t0 = time.time()
         saved = len(I.pcs)
         I.pcs.extend(co.pcs)
+        I.current_ghost = co.extra.get("ghost", [])
         status, detail, model = "discharged", "", ""
         try:
             def run_post():
@@ -470,7 +488,22 @@ def verify_function(fc: FunctionContract, specs, rlimit=20_000_000, hooks=None):
         oname = fc.name
         if fc.arithmetic:
             I.op_may_raise = False
-        inputs = [make_input(I, n, k) for n, k in fc.params]
+        star = dstar = None
+        plain = []
+        for n, k in fc.params:
+            if k == "star":
+                star = z3.Const(n, S)
+            elif k == "dstar":
+                dstar = SymMap(z3.Const(n + "_keys", S), z3.Const(n + "_vals", S))
+                ctx.assume(z3.Length(dstar.keys) == z3.Length(dstar.vals))
+            else:
+                plain.append((n, k))
+        inputs = [make_input(I, n, k) for n, k in plain]
+        spec_inputs = list(inputs)
+        if star is not None:
+            spec_inputs.append(SymSeq(star, "tuple"))
+        if dstar is not None:
+            spec_inputs.append(dstar)
         for tpath, cfn in (fc.assume or {}).items():
             install_assumed(I, loader.unwrap(loader.resolve(tpath)), cfn)
         if fc.setup:
@@ -478,7 +511,7 @@ def verify_function(fc: FunctionContract, specs, rlimit=20_000_000, hooks=None):
         # precondition
         pre_pcs = []
         if fc.requires is not None:
-            pouts = I.explore(lambda: I.call_function(Conc(fc.requires), inputs, {}))
+            pouts = I.explore(lambda: I.call_function(Conc(fc.requires), spec_inputs, {}))
             disj = []
             for po in pouts:
                 if po.kind != "ret":
@@ -495,15 +528,16 @@ def verify_function(fc: FunctionContract, specs, rlimit=20_000_000, hooks=None):
                 rep["status"] = "vacuous"
                 return rep
         I.pcs.extend(pre_pcs)
-        code_outs = I.explore(lambda: I.call_function(Conc(fobj), inputs, {}))
+        code_outs = I.explore(lambda: I.call_function(Conc(fobj), inputs, {}, star, dstar))
         rep["paths"] = len(code_outs)
         if fc.refines is not None:
-            spec_outs = I.explore(lambda: I.call_function(Conc(fc.refines), inputs, {}))
-            rep["obligations"] += [o.as_dict() for o in compare_outcomes(I, code_outs, spec_outs, oname + "/refines", rlimit)]
+            spec_outs = I.explore(lambda: I.call_function(Conc(fc.refines), spec_inputs, {}))
+            rep["obligations"] += [o.as_dict() for o in compare_outcomes(I, code_outs, spec_outs, oname + "/refines", rlimit,
+                                                                       effects=getattr(fc, "effects", False))]
         for ename, efn in fc.ensures:
-            rep["obligations"] += [o.as_dict() for o in check_ensures(I, code_outs, efn, inputs, f"{oname}/{ename}", rlimit)]
+            rep["obligations"] += [o.as_dict() for o in check_ensures(I, code_outs, efn, spec_inputs, f"{oname}/{ename}", rlimit)]
         for rname, cond, exc_cls in fc.raises:
-            rep["obligations"] += [o.as_dict() for o in check_raises(I, code_outs, cond, exc_cls, inputs, f"{oname}/{rname}", rlimit)]
+            rep["obligations"] += [o.as_dict() for o in check_raises(I, code_outs, cond, exc_cls, spec_inputs, f"{oname}/{rname}", rlimit)]
         extra = getattr(I, "extra_obligations", [])
         rep["obligations"] += [o.as_dict() for o in extra]
         del I.pcs[:]
